@@ -49,7 +49,7 @@ type c14world struct {
 func (w *c14world) next(m *c14mach) (val string, stop bool) {
 	l := m.lit
 	switch l.kind {
-	case "counter", "recurfirst":
+	case "counter", "recurfirst", "factory":
 		if m.a < l.N {
 			v := c14F(l.F, m.a)
 			m.a += l.S
@@ -107,7 +107,7 @@ func (w *c14world) next(m *c14mach) (val string, stop bool) {
 
 func (l *c14lit) finite() bool {
 	switch l.kind {
-	case "counter", "recurfirst", "fib", "kwstep", "captured":
+	case "counter", "recurfirst", "fib", "kwstep", "captured", "factory":
 		return true
 	}
 	return false
@@ -115,7 +115,7 @@ func (l *c14lit) finite() bool {
 
 func c14genLit(rng *rand.Rand, idx int, allowCaptured bool) *c14lit {
 	l := &c14lit{name: fmt.Sprintf("g%d", idx), N: rng.Intn(7), S: 1 + rng.Intn(3), F: []string{"i", "i*2", "[i, i]"}[rng.Intn(3)]}
-	kinds := []string{"counter", "counter", "fib", "kwstep", "infinite", "twoyields", "recurfirst", "const"}
+	kinds := []string{"counter", "counter", "fib", "kwstep", "infinite", "twoyields", "recurfirst", "const", "factory", "factory"}
 	if allowCaptured {
 		kinds = append(kinds, "captured")
 	}
@@ -124,6 +124,11 @@ func c14genLit(rng *rand.Rand, idx int, allowCaptured bool) *c14lit {
 	switch l.kind {
 	case "counter":
 		l.src = fmt.Sprintf("<{|i| yield %s if i < %d; recur(i + %d)}>", fe, l.N, l.S)
+	case "factory":
+		// the literal is written inside a function: its free variables belong to that call
+		l.F = "i"
+		l.N = 2 + rng.Intn(8)
+		l.src = fmt.Sprintf("mk(%d, %d)", l.N, l.S)
 	case "captured":
 		l.src = fmt.Sprintf("<{|i| yield %s if i < lim; recur(i + %d)}>", fe, l.S)
 	case "fib":
@@ -211,6 +216,7 @@ func runC14(w *fw.W) {
 		}
 		run(fmt.Sprintf("lim := %d", world.lim))
 		run("adv := {|it| it.next}")
+		run("mk := {|limit, step| <{|i| yield i if i < limit; recur(i + step)}>}")
 		nl := 2 + rng.Intn(2)
 		var lits []*c14lit
 		for i := 0; i < nl; i++ {
@@ -227,7 +233,12 @@ func runC14(w *fw.W) {
 			if from != "" {
 				src = from
 			}
-			o := run(fmt.Sprintf("%s := %s.new(%s)", name, src, args))
+			stmt := fmt.Sprintf("%s := %s.new(%s)", name, src, args)
+			if rng.Intn(3) == 0 {
+				// `new` called from another scope that has its own variables of the same names
+				stmt = fmt.Sprintf("%s := {|limit, step, lim, i| %s.new(%s)}(1, 7, 0, 99)", name, src, args)
+			}
+			o := run(stmt)
 			if !o.OK() {
 				vs.add("C14|new|"+l.kind, fmt.Sprintf("%s → %s\nhistory:\n%s", lines[len(lines)-1], o.Outcome(), strings.Join(lines, "\n")), lines)
 				return
